@@ -101,6 +101,7 @@ def make_observable(w, L, ep, iid, role, pol):
                 w.rec.log(ep, 'app_pub_error', iid=iid, role=role, code=0x201)
                 raise RuntimeError('app: generator failed')
             yield mk(k)
+        w.rec.log(ep, 'app_pub_complete', iid=iid, role=role)     # the generator ran to its end: the producer is done
 
     def factory(backpressure):
         backpressure.subscribe(on_next=lambda n: w.rec.log(ep, 'cb_pub_request', iid=iid, n=min(n, 2 ** 31 - 1), role=role, x=1),
